@@ -79,6 +79,7 @@ def gen_c11_spec(rng: random.Random) -> Dict[str, Any]:
         # the same through the bundled InMemoryBroker (kick() starts the execution itself) and its result backend;
         # nothing here takes time, so attempts cannot overtake each other
         spec["via"] = "inmemory"
+        spec["inplace"] = rng.random() < 0.3  # InMemoryBroker(await_inplace=True): kiq() returns after the execution
         spec["backend"] = {"lat": 0, "stock": True}
         spec["mws"] = [{"pre_execute": {"async": False, "lat": 0}}]
         spec.pop("loop_ackable", None)
@@ -156,10 +157,21 @@ def oracle_c11(rr: Any, spec: Dict[str, Any]) -> "tuple[List[Violation], int]":
         if len(got["kick"]) != max(n, 1):
             v.append(Violation("kick-count", f"{tok}: {len(got['kick'])} sends for {n} executions"))
         stored = ["err" if e["is_err"] else "ok" for e in got["set"]]
-        if stored != want["stored"] and n == want["execs"]:
+        inplace_known = False
+        nested = bool(spec.get("inplace")) and spec.get("via") == "inmemory" and not spec["retry"]["no_result_on_retry"]
+        if nested and n == want["execs"] and len(want["stored"]) > 1:
+            # recorded finding F15, in-place variant: with InMemoryBroker(await_inplace=True) the re-sent attempt
+            # runs to its end *inside* the failing attempt's on_error hook (kiq() awaits the execution), i.e.
+            # before the failing attempt's own result is saved: the saves happen innermost-first and the first
+            # attempt's error is written last.  Anything other than the exact reverse order is not covered.
+            if stored == list(reversed(want["stored"])):
+                v.append(Violation("final-result-overwritten-by-outer-attempt-inplace", f"{tok}: results were saved in the order {stored} "
+                                   f"(the model says {want['stored']}): the in-memory backend ends up with the first attempt's error"))
+                inplace_known = True
+        if stored != want["stored"] and n == want["execs"] and not inplace_known:
             v.append(Violation("stored-results", f"{tok}: stored {stored}, expected {want['stored']} (no_result_on_retry={spec['retry']['no_result_on_retry']})"))
         stock = getattr(rr.sc, "stock_backend", None)
-        if stock is not None and n == want["execs"] and want["stored"]:
+        if stock is not None and n == want["execs"] and want["stored"] and not inplace_known:
             # what a client reads back from the bundled InmemoryResultBackend is the final attempt's outcome
             final = stock.results.get(tok)
             last = [r for dd, tid, r in rr.sc.saved if tid == tok]
